@@ -161,7 +161,10 @@ def merge_rand(tier, seed, ci, nc, count=20000, pool='abcd', maxnamed=4):
     rng = _rng(seed, 'merge_rand', ci)
     for _ in range(count // nc):
         k = rng.choice([2, 3, 3, 3, 4])
-        sigs = [D(core.rand_sig(rng, list(pool), rng.randint(0, maxnamed)), fn=i + 1) for i in range(k)]
+        # a fifth of the tuples: every input derived from the SAME callable (what mask / forwards / several forwarding calls
+        # of one function give): equal provenance, different parameters
+        same = rng.random() < 0.2
+        sigs = [D(core.rand_sig(rng, list(pool), rng.randint(0, maxnamed)), fn=1 if same else i + 1) for i in range(k)]
         yield ('merge', sigs)
 
 
@@ -1028,6 +1031,7 @@ def probes_c06(tier, seed, ci, nc):
     yield ('rt:probes_c06',)
     yield ('rt:dflt_callee',)
     yield ('rt:source_changed',)     # discovery = the declaration for the call shape written NOW (same file name and line, new text)
+    yield ('rt:column_zero',)        # text left of an indented def (string content, comments) is irrelevant
 
 
 STREAMS['probes_c06'] = probes_c06
